@@ -439,7 +439,7 @@ func TestC16(t *testing.T) {
 	h := newHarness(t, "C16", "concurrent histories of GET/SET/SETNX/GETSET/INCR/DECRBY/APPEND/MSETNX/DEL over 1..3 keys. CONTROLLED mode (reference store with a turnstile before every primitive handler call): client A is parked at its g-th primitive call "+
 		"(g in 0..2, i.e. before Get, between Get and Set, ...) while client B's command is started - exhaustively for all pairs of operation kinds x g x {key absent, key=5}, and in random multi-round sequences; "+
 		"UNCONTROLLED mode: 2..8 clients x 1..4 operations on real goroutines against the reference store and against the bundled example store. Oracle: the recorded client-side history (logical-clock invoke/return stamps) must be linearizable "+
-		"against the sequential Redis model (porcupine, complete search). TURNS mode: 2..3 clients taking turns without overlap against both stores (the history's only admissible order is the real-time one; state cached per connection shows here). In controlled and hammer runs a client may first receive an error reply (INCR of a non-integer). "+
+		"against the sequential Redis model (porcupine, complete search). TURNS mode: 2..3 clients taking turns without overlap against both stores (the history's only admissible order is the real-time one; state cached per connection shows here). SLOW-READER mode: a client's command has been executed but its reply is held back while two other clients work, then delivered. In controlled and hammer runs a client may first receive an error reply (INCR of a non-integer). "+
 		"Non-trivial: two operations of different clients on the same key overlap in time and at least one writes (turns mode: operations of at least two clients). Distinct = distinct history (operations, order and results).")
 	defer h.Finish()
 	h.Probes()
@@ -602,6 +602,72 @@ func TestC16(t *testing.T) {
 			clients[o.Client] = true
 		}
 		h.Col.Case(len(clients) >= 2, []byte(fmt.Sprint(hist.Store, hist.Mode, hist.Ops)), "turns", "store:"+store)
+		h.Fail(rt, "c16.history", hist, evalC16History(hist))
+	})
+
+	// (d) a client that reads its reply late: its command has been executed, its reply is held back while others work
+	h.Rapid("slow-reader", h.N(400, 20000), func(rt *rapid.T) {
+		store := rapid.SampledFrom([]string{"example", "refstore"}).Draw(rt, "store")
+		var srv *redis.Server
+		if store == "example" {
+			srv = exserver.NewServer().Server
+		} else {
+			srv = redis.NewServer()
+			srv.SetCommandHandler(doubles.NewRefStore())
+		}
+		m, err := connsim.NewMulti(srv, 3, serveTimeout())
+		if err != nil {
+			rt.Fatalf("multi: %v", err)
+		}
+		defer m.CloseAll()
+		hist := c16History{Store: store, Mode: "slow-reader"}
+		if rapid.Bool().Draw(rt, "init") {
+			hist.Init = [][]string{{"SET", "a", strconv.Itoa(rapid.IntRange(0, 9).Draw(rt, "iv"))}}
+			m.Step(2, resp.Cmd(hist.Init[0]...).Bytes())
+		}
+		var clock int64
+		for r, nr := 0, rapid.IntRange(1, 3).Draw(rt, "rounds"); r < nr; r++ {
+			opA := c16GenOp(rt, 1)
+			clock++
+			callA := clock
+			before := m.Conns[0].FrameCount()
+			m.Conns[0].BlockWrites = true
+			m.Conns[0].Feed(resp.Cmd(opA...).Bytes())
+			if !m.Conns[0].WaitWriteBlocked(serveTimeout()) {
+				rt.Fatalf("the reply to %v was not written", opA)
+			}
+			for j, nb := 0, rapid.IntRange(1, 3).Draw(rt, "nb"); j < nb; j++ {
+				opB := c16GenOp(rt, 1)
+				cl := 1 + rapid.IntRange(0, 1).Draw(rt, "peer")
+				clock++
+				call := clock
+				frames, _, err := m.Step(cl, resp.Cmd(opB...).Bytes())
+				clock++
+				out := "<no reply>"
+				if len(frames) == 1 {
+					out = renderReply(frames[0])
+				}
+				hist.Ops = append(hist.Ops, c16Op{Client: cl, Cmd: opB, Call: call, Ret: clock, Out: out})
+				if err != nil {
+					h.Fail(rt, "c16.history", hist, failf("c16|run-error|"+store, "run failed: %v", err))
+					return
+				}
+			}
+			m.Conns[0].UnblockWrites()
+			_, _, err := m.Step(0, nil)
+			clock++
+			out := "<no reply>"
+			if all, _, _ := m.Conns[0].Frames(); len(all) == before+1 {
+				out = renderReply(all[before])
+			}
+			hist.Ops = append(hist.Ops, c16Op{Client: 0, Cmd: opA, Call: callA, Ret: clock, Out: out})
+			if err != nil {
+				h.Fail(rt, "c16.history", hist, failf("c16|run-error|"+store, "run failed: %v", err))
+				return
+			}
+		}
+		sort.Slice(hist.Ops, func(i, j int) bool { return hist.Ops[i].Call < hist.Ops[j].Call })
+		h.Col.Case(overlapping(hist), []byte(fmt.Sprint(hist.Store, hist.Mode, hist.Init, hist.Ops)), "slow-reader", "store:"+store)
 		h.Fail(rt, "c16.history", hist, evalC16History(hist))
 	})
 
